@@ -215,6 +215,38 @@ impl AsyncWrite for Io {
 }
 
 // ---------------------------------------------------------------------------------------------
+// a user-written framer that uses the Err arm of Framer::extract: LengthDelimited (2 bytes, big
+// endian) that refuses frames longer than `limit` (model: framer kind "lim")
+// ---------------------------------------------------------------------------------------------
+struct LimFramer {
+    inner: LengthDelimited,
+    limit: u64,
+}
+
+impl LimFramer {
+    fn new(limit: u64) -> Self {
+        Self { inner: LengthDelimited::new().set_length_field_len(2).set_length_field_is_big_endian(true), limit }
+    }
+}
+
+impl<B: IoBufMut> Framer<B> for LimFramer {
+    fn enclose(&mut self, buf: &mut B) {
+        self.inner.enclose(buf)
+    }
+
+    fn extract(&mut self, buf: &compio_buf::Slice<B>) -> io::Result<Option<compio_io::framed::frame::Frame>> {
+        let b = buf.as_init();
+        if b.len() >= 2 {
+            let len = u16::from_be_bytes([b[0], b[1]]) as u64;
+            if len > self.limit {
+                return Err(io::Error::new(io::ErrorKind::InvalidData, "frame longer than the limit"));
+            }
+        }
+        self.inner.extract(buf)
+    }
+}
+
+// ---------------------------------------------------------------------------------------------
 // codecs and buffers under test
 // ---------------------------------------------------------------------------------------------
 trait CodecKind {
@@ -307,6 +339,9 @@ struct Case<'a> {
     model_pan: bool,
 }
 
+/// the limit of the "lim" framer (spec/Framing.tla LimLimit)
+const LIM_LIMIT: u64 = 3;
+
 fn bytes_of(v: &Value) -> Vec<u8> {
     v.as_array().map(|a| a.iter().map(|x| x.as_u64().unwrap() as u8).collect()).unwrap_or_default()
 }
@@ -351,7 +386,7 @@ fn parse_case(v: &Value) -> Case<'_> {
 fn fsig(c: &Case) -> serde_json::Map<String, Value> {
     let mut m = serde_json::Map::new();
     m.insert("k".into(), json!(c.k));
-    if c.k == "ld" {
+    if c.k == "ld" || c.k == "lim" {
         m.insert("lfl".into(), json!(c.lfl));
     }
     if c.k == "delim" {
@@ -613,6 +648,7 @@ where
     let mut errors = 0;
     let mut polls = 0;
     let mut problem_reported = false;
+    let mut last_was_framer_err = false;
     while ends < after {
         rep.steps += 1;
         polls += 1;
@@ -631,7 +667,15 @@ where
         match r {
             Err(e) => {
                 sh.borrow_mut().log.push(Ev::Pan);
-                let cls = if header_overflows(c, &stream, consumed) { "lfl+len-overflows-usize" } else if exceeds { "length-exceeds-field" } else { "other" };
+                let cls = if last_was_framer_err {
+                    "poll-after-framer-error"
+                } else if header_overflows(c, &stream, consumed) {
+                    "lfl+len-overflows-usize"
+                } else if exceeds {
+                    "length-exceeds-field"
+                } else {
+                    "other"
+                };
                 rep.problem(
                     "panic",
                     sig(c, "framed-read", cls),
@@ -648,18 +692,25 @@ where
                 break;
             }
             Ok(None) => {
+                last_was_framer_err = false;
                 sh.borrow_mut().log.push(Ev::End);
                 ends += 1;
             }
             Ok(Some(Ok(it))) => {
+                last_was_framer_err = false;
                 let b = K::to_bytes(&it);
                 consumed += c.lfl + b.len();
                 sh.borrow_mut().log.push(Ev::It(b));
                 decoded.push(it);
             }
             Ok(Some(Err(_))) => {
+                // an error item that does not follow a failed read call comes from the framer
+                let from_read = matches!(sh.borrow().log.last(), Some(Ev::R(-1)));
+                last_was_framer_err = !from_read && c.k == "lim";
                 sh.borrow_mut().log.push(Ev::Er);
-                errors += 1;
+                if !last_was_framer_err {
+                    errors += 1;
+                }
                 if sh.borrow().bound_hit {
                     rep.problem(
                         "hang",
@@ -780,6 +831,7 @@ fn run_case<B: BufKind>(c: &Case, rep: &mut Report) {
         ("delim", "a12") => run_with_framer::<AnyDelimited<'static>, B>(c, &|| AnyDelimited::new(&[1, 2]), rep),
         ("delim", "a11") => run_with_framer::<AnyDelimited<'static>, B>(c, &|| AnyDelimited::new(&[1, 1]), rep),
         ("noop", _) => run_with_framer::<NoopFramer, B>(c, &NoopFramer::new, rep),
+        ("lim", _) => run_with_framer::<LimFramer, B>(c, &|| LimFramer::new(LIM_LIMIT), rep),
         (k, dk) => panic!("unknown framer {k} {dk}"),
     }
 }
